@@ -1,4 +1,5 @@
-/- Driver for C10 (stub: not built yet). -/
+/- C10 uses the forecaster state machine; same line protocol as C03. -/
+import SkVerif.Drv.C03
 namespace SkVerif.Drv.C10
-def handle (_toks : List String) : String := "bad-op"
+def handle (toks : List String) : String := SkVerif.Drv.C03.handle toks
 end SkVerif.Drv.C10
